@@ -11,7 +11,8 @@ SOURCE_COMMITS = ["746fd1a fix: undo the instrumentation counts when the new var
                   "1868cdf fix: report an absolute reference with a relative module part ('/.x/f') as an unresolvable reference",
                   "d2d4c05 fix: VKeyword objects with equal key and value compare equal",
                   "1282c41 fix: a /module/function reference to a module without a source file is refused with CodeNotFoundError",
-                  "3eb52de fix: a parameter that the body rebinds keeps the provenance 'argument'"]
+                  "3eb52de fix: a parameter that the body rebinds keeps the provenance 'argument'",
+                  "d9e7045 fix: keep the full instrumentation of a statically tooled function while probes are active"]
 
 claim("C12", "P", "AST normal-form comparison tables + wrapper-guard agreement (syntactic dataflow)",
       "Decides for all integers (not a sample): each stock comparison predicate is the single comparison its name states, Range rejects exactly value<start / value>=end "
